@@ -15,6 +15,9 @@ from mc.ref.base import mk_snap, mk_snaps, shell_volumes
 from mc.ref.c04c13 import cond_gr_loops, cond_sq_loops, group_norms
 from mc.ref.grsq import pair_bins
 from mc.ref import c03x as X3
+from mc.ref import c03y as Y3
+from mc.ref import c04y as Y4
+from mc.ref import c13y as Y
 import json
 
 SEQ_MODS = X3.LIB_MODULES
@@ -33,6 +36,16 @@ ASSUMPTIONS = [
     "wave-vector lists whose |q| clusters straddle an 8-decimal rounding boundary are screened out; orthogonal cells",
     "reductions to sq(): tolerance 0.5e-6 + 0.5e-8 + 1e-9 (documented per-vector rounding of sq() to 1e-6); species ids 1..K",
     "float tolerance rtol 1e-9, atol 1e-11 x max(1, largest expected entry)",
+    "storage forms: conditions float32 / int32 besides float64 / int64 (float32: every value compared with 2e-6 x the largest expected entry - "
+    "the precision of the stored condition; the reference is evaluated on exactly the stored values); positions float64 or float32, any strides "
+    "(float32 positions: a pair within 2e-5 of a bin edge or a minimum-image tie margin < 1e-5 screens the placement); wave vectors an integer "
+    "ndarray of any integer dtype / memory order (documented as 'NDArray of int'; lists are not demanded)",
+    "conditiontype names the shape of the condition ('vector': (N, d), 'tensor': (N, d, d)); giving 'vector' / 'tensor' together with a "
+    "one-dimensional bool / complex / float condition contradicts the documentation (the unchanged tree raises) and is outside the domain",
+    "documented defaults of conditional_gr: ppp = (1, 1, 1), rdelta = 0.01, conditiontype = None",
+    "coincident particles are a pair at distance 0 (first bin); positions may lie any number of cell vectors outside the cell",
+    "conditional g(r) does not depend on the unit of length (positions, cell, bin width x 2^k); conditional S(q) for integer wave vectors neither, as "
+    "long as the documented 8-decimal rounding of the q columns keeps different |q| apart (box <= ~1e3)",
 ]
 
 GR_KINDS = ["bool", "float", "complex", "vector", "cvector", "tensor"]
@@ -76,10 +89,11 @@ def letters(kind, d):
     raise ValueError(kind)
 
 
-def assignments(kind, d, n, dtype=None):
+def assignments(kind, d, n, dtype=None, nletters=None):
     """Every assignment of the kind's alphabet to n particles (bool: every non-empty selection).  dtype: another storage type of
-    the same kind (complex64 for the complex kinds, int64 for the real ones - 0.5 is then stored as 0); the values stay exact."""
-    al = letters(kind, d)
+    the same kind (complex64 for the complex kinds, int64 for the real ones - 0.5 is then stored as 0); the values stay exact.
+    nletters: only the first letters of the alphabet (the forms slices use three letters per kind)."""
+    al = letters(kind, d)[:nletters]
     dt = {"bool": bool, "float": np.float64, "complex": np.complex128, "vector": np.float64, "cvector": np.complex128,
           "tensor": np.float64}[kind]
     if dtype:
@@ -692,6 +706,316 @@ def run_sq_vsum(case):
     return R
 
 
+# ----------------------------------------------- C13.gr.forms / C13.sq.forms: storage forms, exact values, unwrapped, defaults
+FORM_POS = Y3.POS_FORMS
+
+
+def _form_pairs(kind, tier, qforms=None):
+    """(condition form, position form[, wave-vector form]) vectors with <= 1 (quick) / <= 2 (thorough) deviations from the first entries"""
+    doms = [Y.COND_FORMS[kind], FORM_POS] + ([qforms] if qforms else [])
+    maxdev = 1 if tier == "quick" else 2
+    for combo in itertools.product(*doms):
+        if sum(1 for v, dom in zip(combo, doms) if v != dom[0]) <= maxdev:
+            yield combo
+
+
+FORM_LETTERS = 3  # letters per kind in the forms slices (the exact zeros are enumerated by C13.gr.<kind> / C13.sq.<kind>)
+
+
+def gen_gr_forms(tier, seed):
+    quick = tier == "quick"
+    for d in (2, 3):
+        for cell in ("orth", "tri-") if quick else ("orth", "tri+", "tri-"):
+            H = cell_for(d, cell)
+            for pset in ("dyadic", "generic", "unwrapped"):
+                if quick and pset == "generic" and (d, cell) not in ((2, "tri-"), (3, "orth")):
+                    continue
+                for mask in ([1] * d, [0, 1, 1][:d]) if (quick and pset != "generic") else (([1] * d,) if quick else A.masks(d)[:-1]):
+                    for kind in GR_KINDS:
+                        for cform, pform in _form_pairs(kind, tier):
+                            base = (cform, pform) == (Y.COND_FORMS[kind][0], "f64")
+                            if quick and not base and pset == "unwrapped" and not (pform == "f32" and kind == "float"):
+                                continue
+                            if quick and not base and pform != "f64" and kind in ("bool", "complex", "cvector"):
+                                continue  # the positions go through three code branches (scalar, vector, tensor): one kind per branch
+                            yield {"part": "gr", "d": d, "cell": cell, "H": H.tolist(), "w": 0.27, "ppp": mask, "pset": pset, "kind": kind,
+                                   "cform": cform, "pform": pform, "seed": seed, "defaults": False}
+            # the documented defaults (3D): conditional_gr(snapshot, condition) = all directions periodic, bin width 0.01, scalar condition
+            if d == 3:
+                for pset in ("generic", "dyadic"):
+                    for kind in ("bool", "float", "complex"):
+                        if quick and (pset, cell) not in (("generic", "orth"), ("dyadic", "tri-")):
+                            continue
+                        yield {"part": "gr", "d": d, "cell": cell, "H": H.tolist(), "w": 0.01, "ppp": [1, 1, 1], "pset": pset, "kind": kind,
+                               "cform": Y.COND_FORMS[kind][0], "pform": "f64", "seed": seed, "defaults": True}
+
+
+def _forms_positions(case, H, frac=False):
+    d = case["d"]
+    if case["pset"] == "dyadic":
+        wrapped = Y.dyadic4_frac(d, np.diag(H)) if frac else Y.dyadic4(d, np.diag(H))
+    else:
+        wrapped = Y.generic4(case["seed"], H, tag=f"c13f{case['part']}{d}")
+        if frac:  # S(q): points spread over the box
+            wrapped = np.array(A.generic_points(case["seed"], 3, d, tag=f"c13fs{d}")) * np.diag(H)
+    given = Y.unwrap(wrapped, H, case.get("ppp", [1] * d)) if case["pset"] == "unwrapped" else wrapped
+    stored = Y3.store_positions(given, case["pform"])
+    exact_store = case["pform"] in ("f64", "strided")
+    return stored, (wrapped if exact_store else Y3.stored_values(stored))
+
+
+def near_rt(a, b, rt):
+    a = np.asarray(a, float)
+    b = np.asarray(b, float)
+    if a.shape != b.shape or not np.isfinite(a).all():
+        return False
+    if rt <= 1e-9:
+        return near(a, b)
+    s = max(1.0, float(np.max(np.abs(b)))) if b.size else 1.0
+    return bool(np.allclose(a, b, rtol=rt, atol=rt * s))
+
+
+def run_gr_forms(case):
+    from PyMatterSim.static.gr import conditional_gr
+
+    R = Result()
+    d, kind, w = case["d"], case["kind"], case["w"]
+    H = np.array(case["H"], float)
+    ppp = np.array(case["ppp"])
+    stored, src = _forms_positions(case, H)
+    n = len(src)
+    single = case["pform"] in ("f32", "f32view")
+    edge_tol = 2e-5 if (single and case["pset"] != "dyadic") else 1e-9
+    if Y3.tie_margin([src], [H], case["ppp"]) < (1e-5 if single else 1e-9) or Y.ambiguous(src, H, ppp, w, edge_tol):
+        return R.screen()
+    rt = 2e-6 if case["cform"] == "float32" else 1e-9
+    snap = Y3.raw_snap(stored, H, np.ones(n, dtype=int))
+    p0 = np.array(stored, copy=True)
+    sig = gsig(case, kind=kind, cform=case["cform"], pform=case["pform"], pset=case["pset"], defaults=case["defaults"])
+    pb = Y.pair_bins_tol(edge_tol)
+    outs = []
+    populated = 0
+    ncmp = 0
+    for combo, cond in assignments(kind, d, n, None if case["cform"] == Y.COND_FORMS[kind][0] else case["cform"], FORM_LETTERS):
+        c0 = cond.copy()
+        if case["defaults"]:
+            res = conditional_gr(snap, cond)
+        else:
+            res = conditional_gr(snap, cond, conditiontype=ctype(kind), ppp=ppp, rdelta=w)
+        ref = cond_gr_loops(src, H, ppp, w, cond.tolist(), kind, pb, shell_volumes)
+        norm_due = kind == "float" and ref["gA_norm"] is not None
+        need = ["r", "gr", "gA"] + (["gA_norm"] if kind == "float" else [])
+        if any(c not in res.columns for c in need) or len(res) != len(ref["r"]):
+            R.fail(f"columns {list(res.columns)} / {len(res)} rows; need {need} / {len(ref['r'])} rows", sig=dict(sig, clause="columns"))
+            return R
+        if not near(res["r"].values, ref["r"]):
+            R.fail("bin centres differ", sig=dict(sig, clause="bins"))
+        if not near(res["gr"].values, ref["gr"]):
+            R.fail(f"unconditional gr column wrong for condition {combo}", sig=dict(sig, clause="gr_total"), exp=ref["gr"], obs=res["gr"].values)
+        if not near_rt(res["gA"].values, ref["gA"], rt):
+            k = int(np.argmax(np.abs(res["gA"].values - ref["gA"])))
+            R.fail(f"gA differs from the weighted pair histogram for condition letters {combo}: bin {k} got {res['gA'].values[k]!r}, expected {ref['gA'][k]!r}",
+                   sig=dict(sig, clause="gA"), exp=ref["gA"], obs=res["gA"].values)
+        if norm_due and not near_rt(res["gA_norm"].values, ref["gA_norm"], rt):
+            R.fail(f"gA_norm != (gA - <A>^2)/(<A^2> - <A>^2) for condition letters {combo}", sig=dict(sig, clause="gA_norm"),
+                   exp=ref["gA_norm"], obs=res["gA_norm"].values)
+        if not np.array_equal(cond, c0) or cond.dtype != c0.dtype:
+            R.fail("condition array modified", sig=dict(sig, clause="input_modified"))
+        populated = int((ref["count"] > 0).sum())
+        outs.append(np.round(res["gA"].values, 5))
+        ncmp += len(res) * len(need)
+    if not np.array_equal(snap.positions, p0):
+        R.fail("snapshot positions modified", sig=dict(sig, clause="input_modified"))
+    R.outcome(np.array(outs), nd=5)
+    R.elem = ncmp
+    R.nontrivial = populated >= 2 and len({o.tobytes() for o in outs}) >= 2
+    return R
+
+
+SQ_QFORMS = Y4.Q_FORMS
+
+
+def gen_sq_forms(tier, seed):
+    quick = tier == "quick"
+    for d in (2, 3):
+        for box in ("sqr", "uneq"):
+            L = BOX[d][box]
+            for pset in ("dyadic", "generic", "unwrapped"):
+                for ql in (("six",) if quick else ("six", "pyth")):
+                    for kind in SQ_KINDS:
+                        for cform, pform, qform in _form_pairs(kind, tier, SQ_QFORMS):
+                            base = (cform, pform, qform) == (Y.COND_FORMS[kind][0], "f64", "int64")
+                            if quick and not base:
+                                # positions go through three branches (selection, vector, scalar), the wave-vector table through common code
+                                if (pform != "f64" and kind not in ("bool", "float", "vector")) or (qform != "int64" and kind != "float"):
+                                    continue
+                                if pset == "unwrapped" and not (pform == "f32" and kind == "float"):
+                                    continue
+                            yield {"part": "sq", "d": d, "box": box, "L": L, "pset": pset, "qlist": ql, "q": qlist(ql, d), "kind": kind,
+                                   "cform": cform, "pform": pform, "qform": qform, "seed": seed}
+            # narrow integer storage whose SQUARES overflow (int8: |n| >= 12, uint8: n >= 16, int16: n >= 182 or a sum of squares > 32767)
+            for name in Y4.BIG_Q:
+                qv, qforms = Y4.big_q(name, d)
+                for kind in ("bool", "float", "vector") if quick else SQ_KINDS:
+                    for qform in qforms:
+                        yield {"part": "sq", "d": d, "box": box, "L": L, "pset": "generic", "qlist": name, "q": qv, "kind": kind,
+                               "cform": Y.COND_FORMS[kind][0], "pform": "f64", "qform": qform, "seed": seed}
+
+
+def run_sq_forms(case):
+    from PyMatterSim.static.sq import conditional_sq
+
+    R = Result()
+    d, kind = case["d"], case["kind"]
+    L = [float(x) for x in case["L"]]
+    H = np.diag(L)
+    stored, src = _forms_positions(case, H, frac=True)
+    n = len(src)
+    qint = [list(v) for v in case["q"]]
+    qvec = np.array(qint, float) * (2 * math.pi / np.array(L))
+    qn = np.linalg.norm(qvec, axis=1)
+    groups = group_norms(qn, 8)
+    if groups is None:
+        return R.screen()
+    keys = np.array([k for k, _ in groups])
+    snap = Y3.raw_snap(stored, H, np.ones(n, dtype=int))
+    p0 = np.array(stored, copy=True)
+    qarr = Y3.store_int(qint, case["qform"])
+    sig = gsig(case, kind=kind, cform=case["cform"], pform=case["pform"], qform=case["qform"], pset=case["pset"])
+    outs = []
+    for combo, cond in assignments(kind, d, n, None if case["cform"] == Y.COND_FORMS[kind][0] else case["cform"], FORM_LETTERS):
+        c0 = cond.copy()
+        per, ave = conditional_sq(snap, qarr, cond)
+        ref, _ = cond_sq_loops(np.asarray(src, float).tolist(), L, qint, cond.tolist(), kind)
+        qc = [f"q{i}" for i in range(d)]
+        if any(c not in per.columns for c in qc + ["q", "Sq"]) or len(per) != len(qint) or any(c not in ave.columns for c in ("q", "Sq")):
+            R.fail(f"returned tables: {list(per.columns)} ({len(per)} rows), {list(ave.columns)}", sig=dict(sig, clause="columns"))
+            return R
+        if not np.allclose(per[qc].values, qvec, rtol=0, atol=0.5000001e-8 + 1e-12) or not np.allclose(per["q"].values, qn, rtol=0, atol=0.5000001e-8 + 1e-12):
+            R.fail("per-vector table: q = 2 pi n / L columns wrong", sig=dict(sig, clause="qvectors"))
+        v = per["Sq"].values.astype(float)
+        tol = 0.5000001e-8 + 1e-9 * np.abs(ref)
+        if (np.abs(v - ref) > tol).any() or not np.isfinite(v).all():
+            k = int(np.argmax(np.abs(v - ref) - tol))
+            R.fail(f"S(q) of wave vector {qint[k]} for condition letters {combo}: got {v[k]!r}, |sum A exp(-iqr)|^2/N = {ref[k]!r}",
+                   sig=dict(sig, clause="Sq"), exp=ref, obs=v)
+        gm = np.array([ref[idx].mean() for _, idx in groups])
+        if len(ave) != len(groups) or not np.allclose(ave["q"].values, keys, rtol=0, atol=1e-9) \
+                or (np.abs(ave["Sq"].values - gm) > 0.5000001e-8 + 1e-9 * np.abs(gm)).any():
+            R.fail(f"per-|q| average wrong for condition letters {combo}", sig=dict(sig, clause="average"), exp=gm, obs=ave["Sq"].values)
+        if not np.array_equal(cond, c0) or cond.dtype != c0.dtype:
+            R.fail("condition array modified", sig=dict(sig, clause="input_modified"))
+        outs.append(np.round(v, 6))
+        R.elem += len(v) + len(groups)
+    if not np.array_equal(qarr, np.array(qint)) or not np.array_equal(snap.positions, p0):
+        R.fail("wave-vector / position array modified", sig=dict(sig, clause="input_modified"))
+    R.outcome(np.array(outs), nd=6)
+    R.nontrivial = len({o.tobytes() for o in outs}) >= 2 and len(groups) >= 2
+    return R
+
+
+# -------------------------------------------------------------- C13.gr.dilated / C13.sq.dilated: absolute scale
+DIL_SCALES = {"2^-33": 2.0 ** -33, "2^+27": 2.0 ** 27}
+SQ_DIL_SCALES = {"2^-33": 2.0 ** -33, "2^+6": 2.0 ** 6}  # the routine rounds its q columns to 8 decimals: a box of 1e9 would round every q to 0
+
+
+def gen_gr_dilated(tier, seed):
+    for d in (2, 3):
+        for cell in ("orth", "tri+", "tri-"):
+            H = cell_for(d, cell)
+            for kind in (("bool", "float", "vector", "tensor") if tier == "quick" else GR_KINDS):
+                for mask in ([1] * d,) if tier == "quick" else ([1] * d, [0, 1, 1][:d]):
+                    for sname in DIL_SCALES:
+                        yield {"part": "gr", "d": d, "cell": cell, "H": H.tolist(), "w": 0.27, "ppp": mask, "kind": kind, "scale": sname, "seed": seed}
+
+
+def run_gr_dilated(case):
+    from PyMatterSim.static.gr import conditional_gr
+
+    R = Result()
+    d, kind, w = case["d"], case["kind"], case["w"]
+    sc = DIL_SCALES[case["scale"]]
+    H = np.array(case["H"], float)
+    ppp = np.array(case["ppp"])
+    pos = Y.generic4(case["seed"], H, tag=f"c13dl{d}")
+    n = len(pos)
+    if edge_ambiguous(pos, H, ppp, w):
+        return R.screen()
+    snap = mk_snap(pos * sc, H * sc, [1] * n)
+    sig = gsig(case, kind=kind, scale=case["scale"])
+    outs = []
+    populated = 0
+    for combo, cond in assignments(kind, d, n, None, FORM_LETTERS):
+        res = conditional_gr(snap, cond, conditiontype=ctype(kind), ppp=ppp, rdelta=w * sc)
+        ref = cond_gr_loops(pos, H, ppp, w, cond.tolist(), kind, pair_bins, shell_volumes)  # the UNDILATED configuration
+        if any(c not in res.columns for c in ("r", "gr", "gA")) or len(res) != len(ref["r"]):
+            R.fail(f"columns {list(res.columns)} / {len(res)} rows, expected {len(ref['r'])} rows", sig=dict(sig, clause="columns"))
+            return R
+        if not np.allclose(res["r"].values, ref["r"] * sc, rtol=1e-12, atol=0):
+            R.fail("bin centres are not the scaled ones", sig=dict(sig, clause="bins"))
+        if not near(res["gr"].values, ref["gr"]):
+            R.fail("unconditional gr column changes with the unit of length", sig=dict(sig, clause="gr_total"), exp=ref["gr"], obs=res["gr"].values)
+        if not near(res["gA"].values, ref["gA"]):
+            R.fail(f"gA changes with the unit of length (condition letters {combo})", sig=dict(sig, clause="gA"), exp=ref["gA"], obs=res["gA"].values)
+        if kind == "float" and ref["gA_norm"] is not None and not near(res["gA_norm"].values, ref["gA_norm"]):
+            R.fail("gA_norm changes with the unit of length", sig=dict(sig, clause="gA_norm"))
+        populated = int((ref["count"] > 0).sum())
+        outs.append(np.round(res["gA"].values, 7))
+        R.elem += 3 * len(res)
+    R.outcome(np.array(outs), nd=7)
+    R.nontrivial = populated >= 2 and len({o.tobytes() for o in outs}) >= 2
+    return R
+
+
+def gen_sq_dilated(tier, seed):
+    for d in (2, 3):
+        for box in ("sqr", "uneq"):
+            for ql in ("six", "pyth"):
+                for kind in (("bool", "float", "vector") if tier == "quick" else SQ_KINDS):
+                    for sname in SQ_DIL_SCALES:
+                        yield {"part": "sq", "d": d, "box": box, "L": BOX[d][box], "qlist": ql, "q": qlist(ql, d), "kind": kind, "scale": sname, "seed": seed}
+
+
+def run_sq_dilated(case):
+    """differential: the dilated call against the undilated one (which C13.sq.<kind> compares with the definition): integer wave vectors,
+    so every phase q.r is the same number and S must agree bit for bit; the q columns scale by 1 / scale"""
+    from PyMatterSim.static.sq import conditional_sq
+
+    R = Result()
+    d, kind = case["d"], case["kind"]
+    sc = SQ_DIL_SCALES[case["scale"]]
+    L = np.array(case["L"], float)
+    pos = np.array(A.generic_points(case["seed"], 3, d, tag=f"c13ds{d}")) * L
+    qarr = np.array(case["q"], dtype=int)
+    qvec = qarr.astype(float) * (2 * math.pi / L)
+    base = mk_snap(pos, np.diag(L), [1] * 3)
+    dil = mk_snap(pos * sc, np.diag(L * sc), [1] * 3)
+    sig = gsig(case, kind=kind, scale=case["scale"])
+    outs = []
+    for combo, cond in assignments(kind, d, 3, None, FORM_LETTERS):
+        pb, ab = conditional_sq(base, qarr, cond)
+        pd_, ad = conditional_sq(dil, qarr, cond)
+        if list(pd_.columns) != list(pb.columns) or len(pd_) != len(pb):
+            R.fail("per-vector table changes shape with the unit of length", sig=dict(sig, clause="columns"))
+            return R
+        if not np.array_equal(pd_["Sq"].values, pb["Sq"].values):
+            k = int(np.argmax(np.abs(pd_["Sq"].values - pb["Sq"].values)))
+            R.fail(f"S(q) of wave vector {case['q'][k]} changes with the unit of length: {pd_['Sq'].values[k]!r} vs {pb['Sq'].values[k]!r} (letters {combo})",
+                   sig=dict(sig, clause="Sq"), exp=pb["Sq"].values, obs=pd_["Sq"].values)
+        qc = [f"q{i}" for i in range(d)]
+        if not np.allclose(pd_[qc].values, qvec / sc, rtol=1e-12, atol=0.5000001e-8) or \
+                not np.allclose(pd_["q"].values, np.linalg.norm(qvec, axis=1) / sc, rtol=1e-12, atol=0.5000001e-8):
+            R.fail("q columns are not 2 pi n / L of the dilated box", sig=dict(sig, clause="qvectors"))
+        if len(ad) != len(ab) or not np.allclose(ad["Sq"].values, ab["Sq"].values, rtol=1e-12, atol=1e-14):
+            R.fail(f"per-|q| average changes with the unit of length ({len(ad)} rows vs {len(ab)})", sig=dict(sig, clause="average"),
+                   exp=ab["Sq"].values, obs=ad["Sq"].values)
+        outs.append(np.round(pd_["Sq"].values, 6))
+        R.elem += len(pb) + len(ab)
+    R.outcome(np.array(outs), nd=6)
+    R.nontrivial = len({o.tobytes() for o in outs}) >= 2
+    return R
+
+
 # ------------------------------------------------------------------------------ C13.scale
 def gen_scale(tier, seed):
     """dense configurations with coarse bins: one particle has > 255 selected partners in a single bin and a bin total > 65 535"""
@@ -884,6 +1208,30 @@ def subs(tier, seed):
                         + ("{64, 65, 129}" if tier == "quick" else "{63, 64, 65, 128, 129, 257}") + " x 2D/3D x equal / unequal edges x {bool, float, complex, vector, complex vector}: every per-vector "
                         "value and every per-|q| average against a vectorised Fourier sum (one fixed value pattern per size)",
                    bounds={"N": [65, 257] if tier == "quick" else [64, 65, 130, 257, 600]}))
+    out.append(Sub("C13.gr.forms", gen_gr_forms, run_gr_forms,
+                   rule="conditional_gr, STORAGE FORMS / exact values / unwrapped / defaults: condition dtype {float64, float32, int32} (scalar, vector, "
+                        "tensor kinds) x positions {float64, float32, strided float64 view, float32 column slice}, "
+                        + ("<= 1 deviation" if tier == "quick" else "full product") + " x all six kinds x {2D,3D} x cells x masks x point sets of four particles "
+                        "{DYADIC: one at the origin, one on the face x = L_x, two coincident; generic through the periodic faces; the generic ones displaced by "
+                        "whole cell vectors n H, n in {0,+2,-3,+4}}; plus conditional_gr(snapshot, condition) with the documented DEFAULTS (3D); inside a case "
+                        "EVERY assignment of the first three letters of the value alphabet; r, gr, gA, gA_norm against the loop reference on exactly the stored values",
+                   bounds={"N": 4, "form_deviations": 1 if tier == "quick" else 2}))
+    out.append(Sub("C13.sq.forms", gen_sq_forms, run_sq_forms,
+                   rule="conditional_sq, STORAGE FORMS / exact values / unwrapped: condition dtype {float64, float32, int32} x positions {float64, float32, strided, "
+                        "float32 column slice} x wave-vector table {int64, int32, int16, Fortran-ordered int32, strided int64 view; lists with components up to 16 / 300 stored as "
+                        "int8 / uint8 / int16 / uint16, whose squares overflow the storage type}, "
+                        + ("<= 1 deviation" if tier == "quick" else "<= 2 deviations") + " x five kinds x {2D,3D} x boxes x point sets {four particles at dyadic "
+                        "fractions of the box incl. origin / face / coincident pair; three generic ones; the generic ones displaced by whole box vectors}; EVERY assignment of the "
+                        "first three letters of the value alphabet; per-vector S and per-|q| average against the loop reference",
+                   bounds={"N": 4, "form_deviations": 1 if tier == "quick" else 2}))
+    out.append(Sub("C13.gr.dilated", gen_gr_dilated, run_gr_dilated,
+                   rule="ABSOLUTE SCALE: positions, cell (orth / tri+ / tri-) and bin width multiplied by 2^-33 and 2^+27; four generic particles; every assignment of "
+                        "three letters; r scaled, gr / gA / gA_norm equal to the loop reference of the UNDILATED configuration",
+                   bounds={"scales": list(DIL_SCALES)}))
+    out.append(Sub("C13.sq.dilated", gen_sq_dilated, run_sq_dilated,
+                   rule="ABSOLUTE SCALE, differential: positions and box multiplied by 2^-33 and 2^+6 (integer wave vectors: every phase is the same number): per-vector S "
+                        "bit for bit the one of the undilated call, q columns = 2 pi n / L of the dilated box, the per-|q| table has the same rows",
+                   bounds={"scales": list(SQ_DIL_SCALES)}))
     out.append(Sub("C13.sq.reduce", gen_sq_reduce, run_sq_reduce,
                    rule=f"every surjective type map of N=4{',5' if tier == 'thorough' else ''} particles onto K=1..{'min(N,5)' if tier == 'thorough' else 3} species: conditional_sq(types==a) average == sq()['Sqaa'] within the "
                         "documented 1e-6 rounding; A = 1 (float, complex) == sq()['Sq']"))
